@@ -3,7 +3,8 @@
 From Coq Require Import ZArith List Bool Lia.
 From Coq Require Import ZifyBool ZifyNat.
 From GCNP Require Import base.GoInt base.Bytes base.Codec gen.Constants_gen spec.SpecTables
-  model.Prim model.DataType model.MsgTypes model.Frame proofs.PrimProofs proofs.ConstantsProofs proofs.CapabilityProofs.
+  model.Prim model.DataType model.MsgTypes model.Frame model.MsgRequests proofs.PrimProofs proofs.ConstantsProofs proofs.CapabilityProofs
+  proofs.MsgRequestsLib.
 Import ListNotations.
 Open Scope Z_scope.
 Ltac Zify.zify_post_hook ::= Z.div_mod_to_equations.
@@ -101,21 +102,6 @@ Proof.
   destruct r; rewrite Hdir; cbn [negb is_ok rguard]; unfold bind at 1, ret at 1; reflexivity.
 Qed.
 
-(* ---------- maps without duplicate keys are unchanged by the decoder's map construction ---------- *)
-Lemma existsb_bytes_eqb_in {V} (k : bytes) (r : list (bytes * V)) :
-  existsb (fun kv' => bytes_eqb k (fst kv')) r = true -> In k (map fst r).
-Proof.
-  intro H. apply existsb_exists in H. destruct H as [[k' v'] [Hin He]]. cbn [fst] in He. apply bytes_eqb_eq in He. subst k'.
-  apply (in_map fst) in Hin. exact Hin.
-Qed.
-Lemma dedup_last_nodup {V} (m : list (bytes * V)) : NoDup (map fst m) -> dedup_last m = m.
-Proof.
-  induction m as [|[k v] m IH]; intro H; cbn [dedup_last map fst] in *; [reflexivity|].
-  inversion H as [|? ? Hnin Hnd]; subst. destruct (existsb (fun kv' => bytes_eqb k (fst kv')) m) eqn:E.
-  - exfalso. apply Hnin. apply existsb_bytes_eqb_in in E. exact E.
-  - rewrite IH by exact Hnd. reflexivity.
-Qed.
-
 (* ---------- frames over message codecs that satisfy the per-message laws ---------- *)
 Section WithCodec.
   Variable mc : msg_codec.
@@ -133,7 +119,7 @@ Section WithCodec.
     (if has_tracing_id h b then exists u, bd_TracingId b = Some u /\ zlen u = 16 else bd_TracingId b = None) /\
     (if has (h_Flags h) HeaderFlagCustomPayload
      then 4 <= h_Version h /\ zlen (bd_CustomPayload b) <= 65535 /\ bytes_map_small (bd_CustomPayload b) /\
-          NoDup (map fst (bd_CustomPayload b))
+          nodup_keysb (bd_CustomPayload b) = true
      else bd_CustomPayload b = []) /\
     (if has (h_Flags h) HeaderFlagWarning
      then msg_is_response (bd_Message b) = true /\ 4 <= h_Version h /\
@@ -158,8 +144,8 @@ Section WithCodec.
   (* the bytes of an uncompressed body, given the bytes of the message *)
   Definition body_bytes (h : Header) (b : Body) (mb : bytes) : bytes :=
     (if has_tracing_id h b then olist (bd_TracingId b) else []) ++
-    (if has (h_Flags h) HeaderFlagCustomPayload then enc_bytes_map (bd_CustomPayload b) else []) ++
     (if has (h_Flags h) HeaderFlagWarning then enc_string_list (olist (bd_Warnings b)) else []) ++
+    (if has (h_Flags h) HeaderFlagCustomPayload then enc_bytes_map (bd_CustomPayload b) else []) ++
     mb.
 
   Lemma version_ltb4 v : Z.ltb v ProtocolVersion4 = Z.ltb v 4. Proof. reflexivity. Qed.
@@ -174,8 +160,8 @@ Section WithCodec.
     (destruct (has (h_Flags h) HeaderFlagCustomPayload);
        [destruct Hp as (Hv & Hn & Hs & Hnd); destruct (Z.ltb_spec (h_Version h) 4); [lia|]; rewrite write_bytes_map_ok by assumption|]);
     (destruct (has (h_Flags h) HeaderFlagWarning);
-       [destruct Hw as (Hr & Hv' & l & Hl0 & Hl1 & Hl2); rewrite Hl0; destruct (Z.ltb_spec (h_Version h) 4); [lia|];
-        cbn [andb olist]; rewrite write_string_list_ok by assumption|]);
+       [destruct Hw as (Hr & Hv' & l & Hl0 & Hl1 & Hl2); rewrite Hr, Hl0; destruct (Z.ltb_spec (h_Version h) 4); [lia|];
+        cbn [andb olist]; rewrite write_string_list_ok by assumption| cbn [andb]]);
     reflexivity.
   Qed.
 
@@ -184,39 +170,27 @@ Section WithCodec.
     body_ok h b -> mc_encode mc (h_Version h) (bd_Message b) = Ok mb ->
     decode_body_parts mc h (body_bytes h b mb ++ rest) = DOk (norm_body h b) rest.
   Proof.
-    intros Hsup Hresp Hop (Ht & Hp & Hw & Hm) Hmb. unfold decode_body_parts, body_bytes. rewrite <- !app_assoc.
+    intros Hsup Hresp Hop (Ht & Hp & Hw & Hm) Hmb. unfold decode_body_parts, body_bytes, norm_body. rewrite <- !app_assoc.
     destruct (H_rt _ _ Hsup Hm) as (mb' & Hmb' & Hdec). assert (mb' = mb) by congruence. subst mb'.
-    rewrite Hresp. rewrite (andb_comm (msg_is_response (bd_Message b))). fold (has_tracing_id h b).
+    rewrite Hresp. rewrite (andb_comm (msg_is_response (bd_Message b)) (has (h_Flags h) HeaderFlagTracing)). fold (has_tracing_id h b).
+    (* tracing id *)
     unfold bind at 1.
-    assert (E1 : (if has_tracing_id h b then rmap Some read_uuid else ret None)
-                 ((if has_tracing_id h b then olist (bd_TracingId b) else []) ++
-                  (if has (h_Flags h) HeaderFlagCustomPayload then enc_bytes_map (bd_CustomPayload b) else []) ++
-                  (if has (h_Flags h) HeaderFlagWarning then enc_string_list (olist (bd_Warnings b)) else []) ++ mb ++ rest)
-                 = DOk (bd_TracingId b)
-                  ((if has (h_Flags h) HeaderFlagCustomPayload then enc_bytes_map (bd_CustomPayload b) else []) ++
-                  (if has (h_Flags h) HeaderFlagWarning then enc_string_list (olist (bd_Warnings b)) else []) ++ mb ++ rest)).
-    { destruct (has_tracing_id h b).
-      - destruct Ht as (u & -> & Hu). cbn [olist]. unfold rmap, bind. rewrite read_uuid_app by exact Hu. reflexivity.
-      - rewrite Ht. reflexivity. }
-    rewrite E1. unfold bind at 1.
-    assert (E2 : (if has (h_Flags h) HeaderFlagCustomPayload then rmap (@dedup_last _) read_bytes_map else ret [])
-                 ((if has (h_Flags h) HeaderFlagCustomPayload then enc_bytes_map (bd_CustomPayload b) else []) ++
-                  (if has (h_Flags h) HeaderFlagWarning then enc_string_list (olist (bd_Warnings b)) else []) ++ mb ++ rest)
-                 = DOk (bd_CustomPayload b)
-                  ((if has (h_Flags h) HeaderFlagWarning then enc_string_list (olist (bd_Warnings b)) else []) ++ mb ++ rest)).
-    { destruct (has (h_Flags h) HeaderFlagCustomPayload).
-      - destruct Hp as (Hv & Hn & Hs & Hnd). unfold rmap, bind. rewrite read_bytes_map_app by assumption.
-        unfold ret. rewrite dedup_last_nodup by exact Hnd. reflexivity.
-      - rewrite Hp. reflexivity. }
-    rewrite E2. unfold bind at 1.
-    assert (E3 : (if msg_is_response (bd_Message b) && has (h_Flags h) HeaderFlagWarning then rmap Some read_string_list else ret None)
-                 ((if has (h_Flags h) HeaderFlagWarning then enc_string_list (olist (bd_Warnings b)) else []) ++ mb ++ rest)
-                 = DOk (if has (h_Flags h) HeaderFlagWarning then bd_Warnings b else None) (mb ++ rest)).
-    { destruct (has (h_Flags h) HeaderFlagWarning).
-      - destruct Hw as (Hr & Hv & l & -> & Hl1 & Hl2). rewrite Hr. cbn [andb olist]. unfold rmap, bind.
-        rewrite read_string_list_app by assumption. reflexivity.
-      - rewrite andb_false_r. reflexivity. }
-    rewrite E3. unfold bind at 1. rewrite Hop, Hdec. reflexivity.
+    destruct (has_tracing_id h b);
+      [destruct Ht as (u & Hu1 & Hu2); rewrite Hu1; cbn [olist]; unfold rmap at 1, bind at 1; rewrite read_uuid_app by exact Hu2; unfold ret at 1
+      | rewrite Ht; unfold ret at 1; rewrite app_nil_l].
+    all: unfold bind at 1.
+    (* warnings *)
+    all: destruct (has (h_Flags h) HeaderFlagWarning);
+      [destruct Hw as (Hr & Hv & l & Hl0 & Hl1 & Hl2); rewrite Hr, Hl0; cbn [andb olist]; unfold rmap at 1, bind at 1;
+       rewrite read_string_list_app by assumption; unfold ret at 1
+      | rewrite andb_false_r; unfold ret at 1; rewrite app_nil_l].
+    all: unfold bind at 1.
+    (* custom payload *)
+    all: destruct (has (h_Flags h) HeaderFlagCustomPayload);
+      [destruct Hp as (Hv4 & Hn & Hs & Hnd); unfold rmap at 1, bind at 1; rewrite read_bytes_map_app by assumption;
+       unfold ret at 1; rewrite dedup_last_nodup by exact Hnd
+      | rewrite Hp; unfold ret at 1; rewrite app_nil_l].
+    all: unfold bind at 1; rewrite Hop, Hdec; reflexivity.
   Qed.
 
   (* C03: the declared body length is the number of body bytes *)
@@ -228,7 +202,7 @@ Section WithCodec.
     rewrite (H_len _ _ _ Hsup Hm Hmb). rewrite !zlen_app.
     destruct (has_tracing_id h b); [destruct Ht as (u & Hu1 & Hu2); rewrite Hu1; cbn [olist]; rewrite Hu2|];
     (destruct (has (h_Flags h) HeaderFlagCustomPayload); [rewrite enc_bytes_map_len|]);
-    (destruct (has (h_Flags h) HeaderFlagWarning); [rewrite enc_string_list_len|]);
+    (destruct (has (h_Flags h) HeaderFlagWarning); [destruct Hw as (Hr & _); rewrite Hr; cbn [andb]; rewrite enc_string_list_len| cbn [andb]]);
     cbn [ladd]; change (zlen (@nil Z)) with 0; unfold LengthOfUuid; f_equal; lia.
   Qed.
 
